@@ -120,6 +120,10 @@ def priority_shapes():
 
 class C11(PropertyCheck):
     id = "C11"
+
+    def regenerate(self, ctx):
+        return sc.regenerate()
+
     lean_modules = ["QipVerif.Props.C11"]
     drivers = ["drv_sched"]
     theorems = [
@@ -135,6 +139,9 @@ class C11(PropertyCheck):
         "QipVerif.C11.no_overlap_partial",
         "QipVerif.C11.no_overlap_without_permutation",
         "QipVerif.C11.no_overlap_fixed",
+        "QipVerif.C11.timetable_valid_fixed",
+        "QipVerif.C11.tree_conflict_fix",
+        "QipVerif.C11.timetable_valid_tree",
         "QipVerif.C11.C11_counterexample_starts",
         "QipVerif.C11.C11_counterexample_overlap",
         "QipVerif.C11.C11_counterexample_no_overlap",
